@@ -193,16 +193,22 @@ def acceptByte (w : UInt8) : P Bool := do
 def special (w : UInt8) : P Bool := acceptByte w
 def expectSpecial (w : UInt8) : P Unit := do expect (← special w)
 
+/-- read one byte and put it back (`readByte` + `mustUnreadByte`): `none` at end of input -/
+def peekByte : P (Option UInt8) := do
+  match ← readByte with
+  | none => pure none
+  | some b => do unreadByte; pure (some b)
+
 /-- decoder.go SP (including the "SP is optional before a parenthesised list" special case) -/
 def sp : P Bool := do
   if ← acceptByte 32 then
-    match ← readByte with
+    match ← peekByte with
     | none => pure false
-    | some b => do unreadByte; pure (b != 13 && b != 10)
+    | some b => pure (b != 13 && b != 10)
   else
-    match ← readByte with
+    match ← peekByte with
     | none => pure false
-    | some b => do unreadByte; pure (b == 40)
+    | some b => pure (b == 40)
 
 def expectSP : P Unit := do expect (← sp)
 
@@ -645,28 +651,35 @@ def trailingValues : Nat → Nat → P Unit
     discardValue fuel depth
     trailingValues fuel depth
 
+/-- ghost: the recursion is `n` levels deep (only needed where Go recurses without counting) -/
+def noteNest (n : Nat) : P Unit := fun d => .ok () { d with maxDepth := max d.maxDepth n }
+
 /-- fetch.go readBody / readBodyType1part / readBodyTypeMpart.  `depth` is the decoder's
-    listDepth; with `guard` the body levels count against the limit (the repaired code). -/
-def readBody (guard : Bool) : Nat → Nat → P BodyOut
-  | 0, _ => outOfFuel
-  | fuel + 1, depth => do
-    let dp ← (if guard then enter depth else pure depth : P Nat)
+    listDepth; with `guard` the body levels count against the limit (the repaired code).
+    Without it, listDepth stays what it is while the recursion deepens: `nest` counts those
+    uncounted levels for the ghost `maxDepth`. -/
+def readBody (guard : Bool) : Nat → Nat → Nat → P BodyOut
+  | 0, _, _ => outOfFuel
+  | fuel + 1, depth, nest => do
+    let (dp, nest) ← (
+      if guard then do let dp ← enter depth; pure (dp, nest)
+      else do noteNest (depth + nest + 1); pure (depth, nest + 1) : P (Nat × Nat))
     expectSpecial 40
     let b ← (do
       match ← string with
-      | some typ => body1part fuel dp typ
+      | some typ => body1part fuel dp nest typ
       | none =>
         if ← badLiteral then fail else
-        let (outs, dpt) ← mpartLoop fuel dp "" 0
+        let (outs, dpt) ← mpartLoop fuel dp nest "" 0
         pure { out := outs, depth := dpt } : P BodyOut)
     trailingValues fuel dp
     expectSpecial 41
     pure b
 where
   /-- readBodyType1part -/
-  body1part : Nat → Nat → Bytes → P BodyOut
-  | 0, _, _ => outOfFuel
-  | fuel + 1, dp, typ => do
+  body1part : Nat → Nat → Nat → Bytes → P BodyOut
+  | 0, _, _, _ => outOfFuel
+  | fuel + 1, dp, nest, typ => do
     expectSP
     let sub ← expectString
     expectSP
@@ -684,7 +697,7 @@ where
       if isMsg && (isRfc || isGlobal) then do
         readEnvelope fuel dp
         expectSP
-        let inner ← readBody guard fuel dp
+        let inner ← readBody guard fuel dp nest
         expectSP
         let lines ← expectNumber64
         let ext ← sp
@@ -700,10 +713,10 @@ where
         pure { out := head ++ "/x]", depth := 1 }
     | _, _, _, _ => unmodelled
   /-- readBodyTypeMpart: children, then the subtype, then the extension data -/
-  mpartLoop : Nat → Nat → String → Nat → P (String × Nat)
-  | 0, _, _, _ => outOfFuel
-  | fuel + 1, dp, acc, dmax => do
-    let child ← readBody guard fuel dp
+  mpartLoop : Nat → Nat → Nat → String → Nat → P (String × Nat)
+  | 0, _, _, _, _ => outOfFuel
+  | fuel + 1, dp, nest, acc, dmax => do
+    let child ← readBody guard fuel dp nest
     let acc := acc ++ child.out
     let dmax := max dmax child.depth
     let more ← (do
@@ -713,7 +726,7 @@ where
         | none => pure none
       else pure none : P (Option Bytes))
     match more with
-    | none => if ← badLiteral then fail else mpartLoop fuel dp acc dmax
+    | none => if ← badLiteral then fail else mpartLoop fuel dp nest acc dmax
     | some sub => do
       let ext ← sp
       if ext then do readBodyFldParam fuel dp; extTail fuel dp
@@ -776,7 +789,7 @@ def fetchAtt (fuel dp : Nat) (guard : Bool) (seq : Nat) : P Unit := do
         if name == strB "BODY" then
           if ← special 91 then unmodelled
         expectSP
-        let b ← readBody guard fuel dp
+        let b ← readBody guard fuel dp 0
         setCur fun m => { m with body := some b.out, bodyDepth := b.depth }
       else if name == strB "BINARY" then do
         if ← special 91 then unmodelled else fail
@@ -861,10 +874,10 @@ def readTagged (fuel : Nat) (cfg : Cfg) (tag typ : Bytes) : P Unit := do
   if !(cs.pending && tag == cs.tag) then fail else do
   modifyCS fun cs => { cs with pending := false, cmdClass := "err" }
   respText fuel cfg true
-  if typ == strB "OK" then modifyCS fun cs => { cs with cmdClass := "ok" }
-  else if typ == strB "NO" then modifyCS fun cs => { cs with cmdClass := "no" }
-  else if typ == strB "BAD" then modifyCS fun cs => { cs with cmdClass := "bad" }
-  else fail
+  if !(typ == strB "OK" || typ == strB "NO" || typ == strB "BAD") then fail else do
+  -- the command is reported as completed only once the whole line has been received
+  expectCRLF
+  modifyCS fun cs => { cs with cmdClass := if typ == strB "OK" then "ok" else if typ == strB "NO" then "no" else "bad" }
 
 /-- client.go readResponseData -/
 def readData (fuel : Nat) (cfg : Cfg) (typ0 : Bytes) : P Unit := do
@@ -904,8 +917,8 @@ def readResponse (fuel : Nat) (cfg : Cfg) : P Unit := do
     if ← special 42 then pure [] else expectAtom : P Bytes)
   expectSP
   let typ ← expectAtom
-  if !tag.isEmpty then readTagged fuel cfg tag typ else readData fuel cfg typ
-  expectCRLF
+  -- the CRLF of a tagged response is consumed by readResponseTagged
+  if !tag.isEmpty then readTagged fuel cfg tag typ else do readData fuel cfg typ; expectCRLF
 
 inductive DecClass where | none | err | panic | unmod | nofuel
 deriving BEq
